@@ -105,10 +105,11 @@ theorem C19_validate_spec (s : Str) (strict : Bool) (t : Str) :
 never `IndexError`: the model's indexing `s[0]`, `s[-1]`, `pop()` are partial operations).
 
 `_partial`: proved for every string of Unicode scalar values (`List Char`), i.e. every `str` that is Unicode
-text.  Missing: a Python `str` can also hold lone surrogates, which `Char` cannot represent; there the real
-code raises `UnicodeEncodeError` from `remaining[0].encode('utf-8')` (known finding
-`C19:name-raises-UnicodeEncodeError:lone-surrogate`, reported by the harness, stage O).  The same domain
-restriction applies to every theorem of this file. -/
+text.  Missing: a Python `str` can also hold lone surrogates, which `Char` cannot represent.  There the code used
+to raise `UnicodeEncodeError` from `remaining[0].encode('utf-8')`; since the repair b0b9659 (try/except around that
+`encode`, name.py:155-158) it raises `BadTypeInNameException`.  That branch has no counterpart in the model
+(`checkInst` cannot fail to encode); it is guarded only by the harness's surrogate streams (stage O, signature
+`C19:name-raises-UnicodeEncodeError:lone-surrogate`).  The same domain restriction applies to every theorem of this file. -/
 theorem C19_only_badtype_partial (s : Str) (strict : Bool) (e : PyExc) (h : serviceTypeName s strict = .error e) :
     e = .badType := by
   have fin : ∀ {c : Prop} {_ : Decidable c} {t : Str}, (if c then Except.ok t else Except.error PyExc.badType) = Except.error e → e = .badType := by
@@ -234,6 +235,36 @@ example : ∀ t, ¬ Accepts true "_my_long_service_name_x._tcp.local.".toList t 
 example : Accepts false "host.local.".toList "local.".toList := (C19_validate_spec _ _ _).1 rfl
 example : Accepts false ".local.".toList "local.".toList := (C19_validate_spec _ _ _).1 rfl
 
+/-! ### non-vacuity of `C19_constructor` -/
+
+example : ctorCheck "_http._tcp.local.".toList "foo._http._tcp.local.".toList = .ok () := by rfl
+/-- a valid name whose service type is not the tail of `type_` -/
+example : ctorCheck "_ipp._tcp.local.".toList "foo._http._tcp.local.".toList = .error .badType := by rfl
+/-- the test is `endswith`: a longer `type_` passes -/
+example : ctorCheck "_printer._sub._http._tcp.local.".toList "foo._http._tcp.local.".toList = .ok () := by rfl
+example : ctorCheck "local.".toList "host.local.".toList = .ok () := by rfl
+
+/-! ### readings the English sentence leaves open, as the (repaired) code and `Spec` fix them
+
+`<Instance>` may contain dots anywhere, even leading or trailing ones, but is not empty when a dot precedes the
+service label; `<sub>` is non-empty and does not start with a dot, but is otherwise free; a prefix that is exactly
+`_sub` is rejected; the bare `.local.` form accepts the empty prefix.  `Spec`, the model and the harness oracle share
+this reading (it is the code's), so these are pinned here as named facts rather than discovered by disagreement. -/
+
+example : Accepts true ".._a._tcp.local.".toList "_a._tcp.local.".toList := (C19_validate_spec _ _ _).1 rfl
+example : Accepts true ".a._x._tcp.local.".toList "_x._tcp.local.".toList := (C19_validate_spec _ _ _).1 rfl
+example : Accepts true "a.._x._tcp.local.".toList "_x._tcp.local.".toList := (C19_validate_spec _ _ _).1 rfl
+example : Accepts true "x.._sub._a._tcp.local.".toList "_a._tcp.local.".toList := (C19_validate_spec _ _ _).1 rfl
+example : Accepts true "a._sub._sub._a._tcp.local.".toList "_a._tcp.local.".toList := (C19_validate_spec _ _ _).1 rfl
+example : serviceTypeName "._a._tcp.local.".toList true = .error .badType := by rfl
+example : serviceTypeName "_sub._a._tcp.local.".toList true = .error .badType := by rfl
+example : serviceTypeName "._sub._a._tcp.local.".toList false = .error .badType := by rfl
+example : serviceTypeName ".x._sub._a._tcp.local.".toList false = .error .badType := by rfl
+/-- characters that only *case-map* to ASCII are not letters of the service-name alphabet (review F1):
+KELVIN SIGN U+212A, LATIN SMALL LETTER LONG S U+017F -/
+example : serviceTypeName "_\u212a._tcp.local.".toList true = .error .badType := by rfl
+example : serviceTypeName "_a\u017f._tcp.local.".toList false = .error .badType := by rfl
+
 /-! ## TXT properties -/
 open Zc.Txt
 
@@ -250,41 +281,116 @@ structure WFPropsRfc (ps : Txt.Props) : Prop extends WFProps ps where
   keysNonempty : ∀ e ∈ ps, e.1 ≠ []
   distinctFolded : (ps.map (fun e => Txt.Spec.foldKey e.1)).Nodup
 
+/-- The sentence as worded, for *all* dictionaries whose items fit: both readers give back the dictionary.
+It is **false** (`C19_txt_roundtrip_all_refuted`): TXT cannot carry a key containing `=`, two keys that encode to the
+same bytes, (for an RFC reader) an empty key or keys differing only in ASCII case.  These four classes are reported by
+the harness as known findings; the `_partial` theorems below assume exactly their absence (`WFProps`, `WFPropsRfc`), and
+`C19_txt_wire_transparent` says what happens for every dictionary without any hypothesis. -/
+def C19_txt_roundtrip_all : Prop :=
+  ∀ ps : Txt.Props, (∀ e ∈ ps, (Txt.itemOf e).length ≤ 255) →
+    ∃ text, Txt.encode ps = .ok text ∧ Txt.decodeLib text = Txt.normalise ps ∧ Txt.Spec.parse text = some ps
+
+/-- **No hypothesis on the dictionary (beyond the 255-byte item limit).**  The length-prefixed framing is transparent for
+both readers: the library decode of the encoder's output is "split every item at its first `=`, empty value = none,
+first key wins" over the items, and the RFC reader's is "`attr` of every item, first key (case-insensitively) wins". -/
+theorem C19_txt_wire_transparent (ps : Txt.Props) (h : ∀ e ∈ ps, (Txt.itemOf e).length ≤ 255) :
+    ∃ text, Txt.encode ps = .ok text
+      ∧ Txt.decodeLib text = (ps.map Txt.itemOf).foldl (fun d it => Txt.insertNew d (Txt.partitionEq it).1 (Txt.libVal (Txt.partitionEq it).2)) []
+      ∧ Txt.Spec.parse text = some (Txt.Spec.firstWins [] ((ps.map Txt.itemOf).filterMap Txt.Spec.attr)) :=
+  ⟨_, encode_wf h, decodeLib_encode_general h, parse_encode_general h⟩
+
+theorem C19_txt_refute_of_witness {ps : Txt.Props} (hf : ∀ e ∈ ps, (Txt.itemOf e).length ≤ 255)
+    (hbad : (ps.map Txt.itemOf).foldl (fun d it => Txt.insertNew d (Txt.partitionEq it).1 (Txt.libVal (Txt.partitionEq it).2)) [] ≠ Txt.normalise ps
+      ∨ Txt.Spec.firstWins [] ((ps.map Txt.itemOf).filterMap Txt.Spec.attr) ≠ ps) : ¬ C19_txt_roundtrip_all := by
+  intro hall
+  obtain ⟨t, h1, h2, h3⟩ := hall ps hf
+  obtain ⟨t', g1, g2, g3⟩ := C19_txt_wire_transparent ps hf
+  rw [h1] at g1; injection g1 with g1; subst g1
+  rcases hbad with hb | hb
+  · exact hb (g2.symm.trans h2)
+  · rw [g3] at h3; injection h3 with h3; exact hb h3
+
+/-- `{'a=b': 'c'}`: the library reads `{b'a': b'b=c'}` -/
+theorem C19_txt_roundtrip_all_refuted : ¬ C19_txt_roundtrip_all :=
+  C19_txt_refute_of_witness (ps := [([97, 61, 98], some [99])]) (by decide) (Or.inl (by decide))
+
+/-- each hypothesis of the `_partial` theorems is needed: two keys with the same bytes (`'a'` and `b'a'`) … -/
+theorem C19_txt_colliding_keys_refuted : ¬ C19_txt_roundtrip_all :=
+  C19_txt_refute_of_witness (ps := [([97], some [49]), ([97], some [50])]) (by decide) (Or.inl (by decide))
+
+/-- … an empty key (ignored by an RFC 6763 reader, kept by the library) … -/
+theorem C19_txt_empty_key_refuted : ¬ C19_txt_roundtrip_all :=
+  C19_txt_refute_of_witness (ps := [([], some [120])]) (by decide) (Or.inr (by decide))
+
+/-- … keys that differ only in ASCII case (one attribute for an RFC 6763 reader, two for the library) -/
+theorem C19_txt_case_colliding_keys_refuted : ¬ C19_txt_roundtrip_all :=
+  C19_txt_refute_of_witness (ps := [([97], some [49]), ([65], some [50])]) (by decide) (Or.inr (by decide))
+
 /-- **Library round trip.**  For every well-formed dictionary, `_set_properties` succeeds and decoding the resulting
 TXT bytes with `_unpack_text_into_properties` gives back the same keys, in order, with the same values — an empty
-value read back as no value. -/
-theorem C19_txt_roundtrip_library (ps : Txt.Props) (h : WFProps ps) :
+value read back as no value.
+
+`_partial`: `WFProps` (no `=` in a key, keys distinct after encoding) is not in the English quantifier; without it the
+sentence is false (`C19_txt_roundtrip_all_refuted`, `C19_txt_colliding_keys_refuted`). -/
+theorem C19_txt_roundtrip_library_partial (ps : Txt.Props) (h : WFProps ps) :
     ∃ text, Txt.encode ps = .ok text ∧ Txt.decodeLib text = Txt.normalise ps :=
   ⟨_, encode_wf h.itemsFit, decodeLib_wire h.noEqInKey h.distinctKeys h.itemsFit⟩
 
 /-- **Independent RFC 6763 §6 reader.**  The same bytes, read by a parser written from the RFC (length-prefixed
 strings, first `=` separates key and value, no `=` means "present without value", empty value kept, keys
-case-insensitive, first occurrence wins), give back exactly the dictionary — empty values included. -/
-theorem C19_txt_roundtrip_rfc6763 (ps : Txt.Props) (h : WFPropsRfc ps) :
+case-insensitive, first occurrence wins), give back exactly the dictionary — empty values included.
+
+`_partial`: additionally needs non-empty keys, distinct up to ASCII case (`C19_txt_empty_key_refuted`,
+`C19_txt_case_colliding_keys_refuted`). -/
+theorem C19_txt_roundtrip_rfc6763_partial (ps : Txt.Props) (h : WFPropsRfc ps) :
     ∃ text, Txt.encode ps = .ok text ∧ Txt.Spec.parse text = some ps := by
   refine ⟨_, encode_wf h.itemsFit, ?_⟩
   rw [Txt.Spec.parse, strings_wire _ (items_fit h.itemsFit)]
   simp only [Option.map_some, filterMap_attr ps h.noEqInKey h.keysNonempty]
   rw [firstWins_fresh ps [] (fun _ _ => by simp) h.distinctFolded]
 
-/-- both readers on the same bytes (the statement of DESIGN §7) -/
-theorem C19_txt_roundtrip (ps : Txt.Props) (h : WFPropsRfc ps) :
+/-- both readers on the same bytes (the statement of DESIGN §7, which names `WFProps`) -/
+theorem C19_txt_roundtrip_partial (ps : Txt.Props) (h : WFPropsRfc ps) :
     ∃ text, Txt.encode ps = .ok text ∧ Txt.decodeLib text = Txt.normalise ps ∧ Txt.Spec.parse text = some ps := by
-  obtain ⟨t1, h1, h2⟩ := C19_txt_roundtrip_library ps h.toWFProps
-  obtain ⟨t2, h3, h4⟩ := C19_txt_roundtrip_rfc6763 ps h
+  obtain ⟨t1, h1, h2⟩ := C19_txt_roundtrip_library_partial ps h.toWFProps
+  obtain ⟨t2, h3, h4⟩ := C19_txt_roundtrip_rfc6763_partial ps h
   rw [h1] at h3; injection h3 with h3; subst h3
   exact ⟨t1, h1, h2, h4⟩
 
-/-- what `ServiceInfo(properties=ps).properties` shows — the caller's own dictionary when no `str` was involved, the
-lazily decoded text otherwise — is the dictionary, up to "empty value = no value" -/
-theorem C19_txt_properties_observed (containsStr : Bool) (ps : Txt.Props) (h : WFProps ps) :
-    ∃ text, Txt.encode ps = .ok text ∧ Txt.normalise (Txt.propertiesObs containsStr ps text) = Txt.normalise ps := by
-  refine ⟨_, encode_wf h.itemsFit, ?_⟩
-  cases containsStr with
-  | false => rfl
-  | true =>
-    simp only [Txt.propertiesObs, if_true, decodeLib_wire h.noEqInKey h.distinctKeys h.itemsFit]
+/-- **"(as bytes …)".**  Whatever dictionary of `str`/`bytes` keys and `str`/`bytes`/`None` values is given, what
+`ServiceInfo(properties=d).properties` returns contains no `str`: either a `str` was involved and the decoded text is
+returned, or none was and the caller's dictionary — all bytes — is returned as it is.  No hypothesis on `d`. -/
+theorem C19_txt_properties_are_bytes (d : Txt.PyDict) (text : Bytes) (obs : Txt.PyDict)
+    (h : Txt.setProperties d = .ok (text, obs)) : Txt.allBytes obs = true := by
+  unfold Txt.setProperties at h
+  split at h
+  · cases h
+  · injection h with h
+    injection h with h1 h2
+    by_cases hc : Txt.containsStr d = true
+    · rw [if_pos hc] at h2; subst h2
+      simp only [Txt.allBytes, Txt.containsStr, Txt.asBytesDict, Bool.not_eq_true', List.any_eq_false]
+      intro e he
+      obtain ⟨x, _, rfl⟩ := List.mem_map.1 he
+      cases hx : x.2 <;> simp [Txt.entryHasStr, Txt.PyVal.isStr, hx]
+    · rw [if_neg hc] at h2; subst h2
+      simpa [Txt.allBytes] using hc
+
+/-- … and it is the dictionary that was given (as bytes; empty value = no value), for every well-formed one.
+`_partial` for the same reason as `C19_txt_roundtrip_library_partial`. -/
+theorem C19_txt_properties_observed_partial (d : Txt.PyDict) (h : WFProps (Txt.coerce d)) :
+    ∃ text obs, Txt.setProperties d = .ok (text, obs) ∧ Txt.allBytes obs = true
+      ∧ Txt.normalise (Txt.coerce obs) = Txt.normalise (Txt.coerce d) := by
+  have he := encode_wf h.itemsFit
+  have hs : Txt.setProperties d = .ok (wireOf ((Txt.coerce d).map Txt.itemOf),
+      if Txt.containsStr d then Txt.asBytesDict (Txt.decodeLib (wireOf ((Txt.coerce d).map Txt.itemOf))) else d) := by
+    simp only [Txt.setProperties, he]
+  refine ⟨_, _, hs, C19_txt_properties_are_bytes d _ _ hs, ?_⟩
+  by_cases hc : Txt.containsStr d = true
+  · rw [if_pos hc, decodeLib_wire h.noEqInKey h.distinctKeys h.itemsFit]
+    rw [coerce_asBytesDict]
     simp [Txt.normalise, Txt.normVal, libVal_idem]
+  · rw [if_neg hc]
 
 /-- the only way `_set_properties` fails: some `key[=value]` item is longer than 255 bytes, and then it is `ValueError`
 (from `bytes((len(item),))`) -/
@@ -331,6 +437,36 @@ example : WFPropsRfc [([112, 97, 116, 104], some [47, 120]), ([102], none), ([10
 the RFC reader keeps it -/
 example : Txt.encode [([112, 97, 116, 104], some [47, 120]), ([102], none), ([101], some [])]
     = .ok [7, 112, 97, 116, 104, 61, 47, 120, 1, 102, 2, 101, 61] := by rfl
+
+/-- a well-formed dictionary with an item of exactly 255 bytes (`'k'*253 + '=' + 'v'`) -/
+example : WFPropsRfc [(List.replicate 253 (107 : UInt8), some [118])] := by
+  generalize hk : List.replicate 253 (107 : UInt8) = k
+  have hl : k.length = 253 := by rw [← hk, List.length_replicate]
+  have hm : ∀ b ∈ k, b = 107 := fun b hb => by rw [← hk] at hb; exact (List.mem_replicate.1 hb).2
+  have hne : k ≠ [] := fun h => by rw [h] at hl; cases hl
+  refine { noEqInKey := ?_, distinctKeys := by simp, itemsFit := ?_, keysNonempty := ?_, distinctFolded := by simp }
+  · intro e he h
+    rw [List.mem_singleton.1 he] at h
+    exact absurd (hm _ h) (by decide)
+  · intro e he
+    rw [List.mem_singleton.1 he]
+    simp [Txt.itemOf, hl]
+  · intro e he
+    rw [List.mem_singleton.1 he]
+    exact hne
+
+/-- … one byte more and `_set_properties` raises `ValueError` -/
+example : Txt.encode [(List.replicate 254 (107 : UInt8), some [118])] = .error .valueError := by
+  rw [C19_txt_encode_error]
+  exact ⟨rfl, _, List.mem_singleton.2 rfl, by simp only [Txt.itemOf, List.length_append, List.length_replicate, List.length_cons, List.length_nil]; omega⟩
+
+/-- `{b'k': 'v'}` (bytes key, str value): a `str` is involved, so `.properties` is the decoded text `{b'k': b'v'}`;
+`{b'k': b'v'}` is returned as it is; both are all bytes -/
+example : Txt.setProperties [(.bytes [107], some (.str [118]))] = .ok ([3, 107, 61, 118], [(.bytes [107], some (.bytes [118]))]) := by
+  simp [Txt.setProperties, Txt.coerce, Txt.encode, Txt.encodeItems, Txt.itemOf, Txt.containsStr, Txt.entryHasStr, Txt.PyVal.isStr, Txt.PyVal.enc,
+    Txt.eqByte, Txt.asBytesDict, Txt.decodeLib, decodeLoop_cons, Txt.decodeLoop, Txt.partitionEq, Txt.insertNew, Txt.hasKey, Txt.libVal]
+example : Txt.setProperties [(.bytes [107], some (.bytes [118]))] = .ok ([3, 107, 61, 118], [(.bytes [107], some (.bytes [118]))]) := by
+  simp [Txt.setProperties, Txt.coerce, Txt.encode, Txt.encodeItems, Txt.itemOf, Txt.containsStr, Txt.entryHasStr, Txt.PyVal.isStr, Txt.PyVal.enc, Txt.eqByte]
 
 /-- `{'a': 1, 'A': 2}` is well-formed for the library but not for a case-insensitive RFC reader -/
 example : WFProps [([97], some [49]), ([65], some [50])] ∧ ¬ WFPropsRfc [([97], some [49]), ([65], some [50])] :=
